@@ -129,11 +129,16 @@ func RunIso(c Case) int {
 				return
 			}
 			cc := lime.NewClientChannel(t, cfg.Buffer)
-			ses, err := cc.EstablishSession(ctx, lime.NoneCompressionSelector, lime.NoneEncryptionSelector,
+			ectx, ecancel := context.WithTimeout(ctx, 10*time.Second)
+			ses, err := cc.EstablishSession(ectx, lime.NoneCompressionSelector, lime.NoneEncryptionSelector,
 				lime.Identity{Name: name, Domain: "example.com"},
 				func([]lime.AuthenticationScheme, lime.Authentication) lime.Authentication { return &lime.GuestAuthentication{} }, "i")
+			ecancel()
 			if err != nil || ses.State != lime.SessionStateEstablished {
-				fail <- fmt.Sprint("establish: ", err)
+				// the server is up and the connection was made: this connection is not served as a
+				// session of its own (no channel for it, or one that it shares with another connection)
+				l.log(Event{K: "unserved", G: name, Res: fmt.Sprint(err)})
+				_ = t.Close()
 				return
 			}
 			mu.Lock()
